@@ -70,6 +70,13 @@ def jobs(tier, seed):
                 C.stud((3, 5), autos=['ANTE_POSTING', 'BET_COLLECTION', 'HAND_KILLING', 'CHIPS_PUSHING', 'CHIPS_PULLING'])]:
         out.append(_j('explicit-unknown-mix', cfg, warn='error',
                       opts={'deal': 'mix', 'raises': 'min', 'show': (None,)}, dev_bound=k + 1))
+    # draw games whose hole cards are dealt by hand as a mix of known and unknown cards; several unknown cards discarded at once
+    manual_deal = ['ANTE_POSTING', 'BET_COLLECTION', 'BLIND_OR_STRADDLE_POSTING', 'CARD_BURNING', 'HAND_KILLING', 'CHIPS_PUSHING', 'CHIPS_PULLING']
+    for cfg in [C.nt((9, 9), game='NoLimitDeuceToSevenLowballSingleDraw', autos=manual_deal),
+                C.fl((9, 9), game='FixedLimitBadugi', autos=manual_deal)]:
+        out.append(_j('draw-explicit-unknown-mix', cfg, warn='error',
+                      opts={'deal': 'mix', 'raises': 'none', 'fold': False, 'show': (None,), 'discards': ('none', 'unknowns', 'two')},
+                      dev_bound=k))
     # manual showdowns in cash games: partial shows (some hole cards stay face down) before and on the last street
     manual_show = ['ANTE_POSTING', 'BET_COLLECTION', 'BLIND_OR_STRADDLE_POSTING', 'CARD_BURNING', 'HOLE_DEALING', 'BOARD_DEALING',
                    'RUNOUT_COUNT_SELECTION', 'HAND_KILLING', 'CHIPS_PUSHING', 'CHIPS_PULLING']
@@ -89,7 +96,7 @@ def run_job(job):
 
 def sanity(agg, counters, fam, tier):
     msgs = []
-    for k in ('replenish_seen', 'discards_seen', 'mucks_seen', 'states_with_3+_boards'):
+    for k in ('replenish_seen', 'discards_seen', 'mucks_seen', 'states_with_3+_boards', 'discards_of_2+_unknown_cards_from_mixed_holes'):
         if not counters.get(k):
             msgs.append(f'{k} == 0: the family built to reach it never did')
     return msgs
